@@ -379,11 +379,17 @@ var (
 // compressors use).
 func GzipEncode(p []byte) []byte {
 	var b bytes.Buffer
-	z := gzip.NewWriter(&b)
+	b.Grow(len(p) + len(p)/1024 + 64)
+	z := gzWriters.Get().(*gzip.Writer)
+	z.Reset(&b)
 	z.Write(p)
 	z.Close()
+	gzWriters.Put(z)
 	return b.Bytes()
 }
+
+// a fresh flate compressor costs >1 MB of cleared memory: reuse them
+var gzWriters = sync.Pool{New: func() any { return gzip.NewWriter(io.Discard) }}
 
 // GzipDecode decompresses at most max+1 bytes; total is the full size when the
 // stream is well-formed.
